@@ -67,6 +67,21 @@ def exact_expectation(nodes, edges, root, u_of=uvar, p=None):
     return total
 
 
+def exact_numeric(nodes, edges, root, u, p):
+    """brute force over all open-edge sets, in exact rationals (u: vertex -> Fraction)"""
+    from fractions import Fraction
+    E, total = len(edges), Fraction(0)
+    for mask in range(1 << E):
+        A = [edges[i] for i in range(E) if mask >> i & 1]
+        w = p ** len(A) * (1 - p) ** (E - len(A))
+        if w:
+            for v in comp_of(root, nodes, A):
+                if v != root:
+                    w *= u[v]
+            total += w
+    return total
+
+
 def is_connected(nodes, edges):
     return len(comp_of(nodes[0], nodes, edges)) == len(nodes)
 
